@@ -97,6 +97,22 @@ class Runner:
                 pass
 
 
+def run_qpdf(args, timeout=60):
+    """the real binary with a wall-clock limit and a 4 GiB address-space cap; returns (exit status, stdout, stderr)"""
+    import resource, subprocess
+
+    def cap():
+        resource.setrlimit(resource.RLIMIT_AS, (4 << 30, 4 << 30))
+        resource.setrlimit(resource.RLIMIT_CPU, (timeout, timeout + 5))
+    e = dict(os.environ)
+    e.pop("QPDF_CRYPTO_PROVIDER", None)
+    try:
+        p = subprocess.run([common.QPDF] + list(args), stdout=subprocess.PIPE, stderr=subprocess.PIPE, timeout=timeout, env=e, preexec_fn=cap)
+        return p.returncode, p.stdout, p.stderr
+    except subprocess.TimeoutExpired:
+        return -999, b"", b"timeout"
+
+
 def S32(p):
     p &= 0xFFFFFFFF
     return p - (1 << 32) if p >= (1 << 31) else p
@@ -491,9 +507,21 @@ def leaf_signature(ef, l):
     return ""
 
 
+def f11_class(ef, l):
+    """a V 4 stream whose dictionary holds an encrypted string of the other kind (RC4 vs AESV2): the per-object key cache"""
+    if ef.V != 4 or l["path"] != ("stream",) or l.get("method") not in ("1", "2"):
+        return False
+    return any(x["num"] == l["num"] and x["kind"] in ("s:o", "s:g1", "s:g0") and x.get("method", "0") in ("1", "2") and
+               x.get("method") != l.get("method") for x in ef.leaves) or \
+        any(x["num"] == l["num"] and x["kind"] in ("s:g1", "s:g0") and ef.cf.get(ef.strf, "0") in ("1", "2") and ef.cf.get(ef.strf) != l.get("method")
+            for x in ef.leaves)
+
+
 def file_signatures(ef):
     """signatures of the known-finding input classes a file belongs to (for observations that cannot be attributed to one leaf)"""
     sigs = []
+    if any(f11_class(ef, l) for l in ef.leaves):
+        sigs.append(SIG_PREFIX + "key-cache-ignores-aes")
     if ef.plan.get("sig") == "untyped" and any(l["kind"] == "s:g0" for l in ef.leaves):
         sigs.append(SIG_PREFIX + "sig-contents-without-type")
     if ef.V >= 4 and ef.plan.get("none_style") == "explicit" and "0" in ef.cf.values():
@@ -661,8 +689,72 @@ def judge_files(chk, efs, run, drv, work, rng, perms_spec=None, cli=True):
         chk.violation({"kind": "correspondence-broken", "correspondence": "corr:C06:leaves", "differing_cases": len(leaf_tie), "first_case": t[0], "leaf": t[1],
                        "leaf_kind": t[2], "implementation": t[3], "model": t[4]}, no_input=True)
     chk.count("files-leaves", nleaf, classes, samples=[{"leaf classes (scheme, class, iso method)": sorted(map(str, classes))[:12]}])
+    lazy_part(chk, efs, cases, impl, state_of, run, drv)
     if cli:
         cli_part(chk, efs, run, drv, work, rng)
+
+
+# ---------------------------------------------------------------- objects consumed one at a time (the per-object key cache)
+def lazy_part(chk, efs, cases, impl, state_of, run, drv):
+    """every object fetched from a fresh QPDF and, for a stream, its data read right after the parse: plaintext vs library vs the
+    sequential model (c06_decrypt_seq)"""
+    pick = {}
+    for (ef, role, pw), im in zip(cases, impl):
+        if im["ok"] and id(ef) not in pick and id(ef) in state_of:
+            pick[id(ef)] = (ef, role, pw)
+    sel = list(pick.values())
+    dl = ["c6lazy %s %s %d" % (hexs(ef.path.encode()), ("H:" + pw.hex()) if role == "hexkey" else ("P:" + hexs(pw)), max(ef.E.objects)) for ef, role, pw in sel]
+    outs = common.run_lines(drv, dl, shards=4)
+    mlines, mmeta = [], []
+    for ef, role, pw in sel:
+        st = state_of[id(ef)][0]
+        by_obj = {}
+        for l in ef.leaves:
+            by_obj.setdefault(l["num"], []).append(l)
+        for num, ls in sorted(by_obj.items()):
+            if num == 0 or not any(l["path"] == ("stream",) for l in ls):
+                continue
+            seq = [l for l in ls if l["path"] != ("stream",)] + [l for l in ls if l["path"] == ("stream",)]
+            mlines.append("c6decseq " + " ".join(st + sum(([l["kind"], str(l["num"]), "0", hexs(l["cipher"])] for l in seq), [])))
+            mmeta.append((ef, seq))
+    mout = run(mlines, shards=4)
+    model = {}
+    for (ef, seq), o in zip(mmeta, mout):
+        for l, r in zip(seq, o.split(";")):
+            model[(id(ef), leaf_key(l))] = r
+    n, tie, classes = 0, [], set()
+    for (ef, role, pw), o in zip(sel, outs):
+        if not o.startswith("ok "):
+            continue
+        lv = {}
+        body = o.partition(" leaves=")[2]
+        for item in body.split(";"):
+            if item:
+                k, _, v = item.partition("=")
+                lv[k] = v
+        for l in ef.leaves:
+            k = leaf_key(l)
+            if (id(ef), k) not in model:
+                continue
+            n += 1
+            got, want = lv.get(k), hexs(l["plain"])
+            mo = model[(id(ef), k)]
+            mgot = mo.split()[1] if mo.startswith("ok") else "!error"
+            classes.add((ef.plan["scheme"], ef.plan.get("stm"), ef.plan.get("str"), leaf_class(ef, l), got == want))
+            if got != want:
+                sig = leaf_signature(ef, l) or (SIG_PREFIX + "key-cache-ignores-aes" if f11_class(ef, l) else "")
+                chk.violation({"kind": "property-fails-on-implementation", "part": "files-lazy", "what": "object fetched on its own: a %s is not decrypted to "
+                               "the plaintext" % leaf_class(ef, l), "case": describe(ef, role, pw), "leaf": k, "leaf_kind": l["kind"], "iso_method": l.get("method"),
+                               "implementation": (got or "absent")[:200], "plaintext": want[:200], "model": mo[:200]}, signature=sig)
+            # (leaves of the /CFM /None and /Crypt-defaults classes are excluded from the tie: there the library also resets cf_stream /
+            # cf_string while reading, which the model states per leaf only)
+            if (got or "absent") != mgot and not (got or "").startswith("!") and not leaf_signature(ef, l):
+                tie.append((describe(ef, role, pw), k, l["kind"], (got or "absent")[:120], mo[:160]))
+    if tie:
+        t = tie[0]
+        chk.violation({"kind": "correspondence-broken", "correspondence": "corr:C06:key-cache", "differing_cases": len(tie), "first_case": t[0], "leaf": t[1],
+                       "leaf_kind": t[2], "implementation": t[3], "model": t[4]}, no_input=True)
+    chk.count("files-lazy", n, classes, samples=[{"case": dl[0][:120]}] if dl else [])
 
 
 # ---------------------------------------------------------------- the real binary
@@ -738,7 +830,7 @@ def cli_part(chk, efs, run, drv, work, rng):
         ef, role, pw, kind, args, outp = j
         if outp and os.path.exists(outp):
             os.unlink(outp)
-        rc, so, se = common.run_qpdf(args, timeout=60)
+        rc, so, se = run_qpdf(args, timeout=60)
         return rc, so, se
     res = common.par_map(runj, jobs, workers=4)
     kinds = set()
@@ -985,7 +1077,7 @@ def recovery_part(chk, efs, run, drv, work):
 
     def runj(j):
         ef, role, other, rec = j
-        return common.run_qpdf(([] if rec else ["--suppress-password-recovery"]) + [b"--password=" + other, "--requires-password", ef.path])
+        return run_qpdf(([] if rec else ["--suppress-password-recovery"]) + [b"--password=" + other, "--requires-password", ef.path])
     res = common.par_map(runj, jobs, workers=4)
     tie = []
     for (ef, role, other, rec), (rc, so, se), mo, e in zip(jobs, res, model, encs):
